@@ -14,6 +14,9 @@ var zzSkeletons = []string{
 	"S1F3 W\n<A[1..2] av>\n.",
 	"S1F1 // c\n<BOOLEAN T F>\n.\nS1F2\n<F4 1.5>\n.",
 	"S1F1\n<L <A x> <A[3] x>>\n.",
+	"S1F1 W\n<L <U1 1> // unfinished, comment up to the end of input",
+	"S1F2 // header, then a comment up to the end of input",
+	"S1F1\n<A \"x\"> // terminator missing",
 }
 
 // zzTotalChecks: the result obligations of Parse on any input: all-or-nothing and
@@ -69,15 +72,15 @@ func ZZ_C06_soup() {
 
 // ZZ_C06_base: the unmodified skeletons: no error => every message in the input, in order.
 func ZZ_C06_base() {
-	want := [][2]int{{1, 1}, {6, 11}, {2, 2}, {1, 3}, {1, 1}, {0, 0}}
+	want := [][2]int{{1, 1}, {6, 11}, {2, 2}, {1, 3}, {1, 1}, {0, 0}, {0, 0}, {0, 0}, {0, 0}}
 	for i, sk := range zzSkeletons {
 		msgs := zzParseTotal(sk)
 		switch i {
 		case 4:
 			rt.Assert(len(msgs) == 2, "base:both-messages-returned")
 			rt.Assert(msgs[0].FunctionCode() == 1 && msgs[1].FunctionCode() == 2, "base:in-order")
-		case 5:
-			rt.Assert(len(msgs) == 0, "base:duplicate-variable-is-an-error")
+		case 5, 6, 7, 8:
+			rt.Assert(len(msgs) == 0, "base:erroneous-text-returns-no-message")
 		default:
 			rt.Assert(len(msgs) == 1, "base:one-message")
 			rt.Assert(msgs[0].StreamCode() == want[i][0] && msgs[0].FunctionCode() == want[i][1], "base:codes")
